@@ -10,3 +10,8 @@ open Biogo.Properties.C11_checker
 #print axioms checkSegs_cycles
 #print axioms programStatementA_cycles
 #print axioms segs_from_fresh
+#print axioms checkDropped_iff
+#print axioms checkSegs_sound
+#print axioms checkSegs_complete
+#print axioms checkSegs_iff
+#print axioms programStatementA_sound
